@@ -458,7 +458,8 @@ func genC14() {
 			"ComputeUnit.populateShadowBuffers", "ComputeUnit.setWavesToReady"}},
 		{vmu, []string{"VectorMemoryUnit.Run", "VectorMemoryUnit.instToTransaction", "VectorMemoryUnit.insertTransactionToPipeline",
 			"VectorMemoryUnit.computeCoalescingPenalty", "VectorMemoryUnit.executeFlatLoad", "VectorMemoryUnit.executeFlatStore",
-			"VectorMemoryUnit.sendRequest", "VectorMemoryUnit.Flush"}},
+			"VectorMemoryUnit.sendRequest", "VectorMemoryUnit.Flush", "VectorMemoryUnit.canAcceptTransaction",
+			"VectorMemoryUnit.setAsideTransaction", "orderedTransaction.is"}},
 		{arbF, []string{"IssueArbiter.Arbitrate", "IssueArbiter.isAllWfPoolsEmpty"}},
 		{sch, []string{"SchedulerImpl.DoIssue", "SchedulerImpl.getUnitToIssueTo"}},
 		{decF, []string{"DecodeUnit.CanAcceptWave", "DecodeUnit.AcceptWave"}},
